@@ -117,6 +117,7 @@ def behaviours(prop, tier, c, mode, rng):
                 yield [], f"connect:{st}"
     if c["proxy"] == "socks5":
         yield [], "socks-greet"
+        yield [], "socks-greet:unoffered"  # the proxy picks a method that was not offered
         yield [], "socks-connect"
         if c["auth"]:
             yield [], "socks-auth"
@@ -162,8 +163,14 @@ def run_into(chk, prop, tier):
     for idx, c in enumerate(cases):
         mode = modes[idx % 2] if tier == "quick" else None
         for m in ([mode] if mode else modes):
-            for outcomes, refuse in behaviours(prop, tier, c, m, rng):
-                t = E.record(c, outcomes, refuse, m)
+            variants = [(c, o, r) for o, r in behaviours(prop, tier, c, m, rng)]
+            if prop in ("C16", "C20") and c["tmo"] and c["retries"] >= 2:
+                # the same outcome scripts with a connect timeout shorter than the back-off pauses
+                variants += [(dict(c, tight=True), o, r) for _, o, r in list(variants)]
+            for c2, outcomes, refuse in variants:
+                t = E.record(c2, outcomes, refuse, m)
+                if c2.get("tight"):
+                    t["meta"]["tight_connect_timeout"] = True
                 evals += 1
                 key = (tuple(sorted(c.items())), tuple((tuple(sorted(o.items(), key=str))) for o in map(lambda o: {k: (tuple(v) if isinstance(v, list) else v) for k, v in o.items()}, t["ops"])), t["result"], t["open_after"])
                 if key in seen:
@@ -190,7 +197,7 @@ def run_into(chk, prop, tier):
     accepted = [t for t, v in zip(traces, verdicts) if v[0] == "ACCEPT"]
     # 3b. SPECIFICATION -> CODE: every behaviour of Establish on the exercised cases was reproduced by the code
     if prop == "C20":
-        chk.coverage["spec_to_code"] = spec_to_code([t for t in accepted if t["case"]["retries"] <= COVER_MAX_RETRIES], prop, tier)
+        chk.coverage["spec_to_code"] = spec_to_code([t for t in accepted if t["case"]["retries"] <= COVER_MAX_RETRIES], prop, tier, have_rejections=bool(rejected))
     # canaries
     can = canaries(accepted, GROUP[prop])
     if prop == "C11":
@@ -248,7 +255,7 @@ def run_into(chk, prop, tier):
     ]
 
 
-def spec_to_code(accepted, prop, tier):
+def spec_to_code(accepted, prop, tier, have_rejections=False):
     """TLC enumerates every behaviour of Establish for the cases that were exercised; each must be among
     the accepted recorded logs (spec/EstablishCover.tla).  -> coverage record; a behaviour of the
     specification that the code never reproduced is a machinery failure (incomplete outcome scripts) -
@@ -280,7 +287,7 @@ def spec_to_code(accepted, prop, tier):
     unc = re.findall(r'"UNCOVERED", "(.*)"', r["raw"])
     terminal = None
     out = {"cases": len({json.dumps(b["case"], sort_keys=True) for b in body}), "recorded_distinct_logs": len(body), "spec_states": r["distinct"], "spec_behaviours_not_reproduced": len(unc)}
-    if unc:
+    if unc and not have_rejections:
         sample = [u.encode().decode("unicode_escape")[:400] for u in unc[:3]]
         raise tlc.MachineryError(f"spec -> code: {len(unc)} behaviour(s) of Establish were never reproduced by the real code on the exercised cases (outcome scripts incomplete, or the code cannot do it), e.g. {sample}")
     return out
